@@ -13,8 +13,36 @@ CFG = {
             "first appearance; their format (64 lower-case hex / UUID v4) and distinctness are checked in the harness "
             "(#fmt=). Class A: users made by create_user (<=3 creates, <=5 Argon2 calls per sequence); class B: a "
             "pre-created pool of users cloned into the provider. 16 directed sequences and 9 direct checks of the hash "
-            "contract's pepper clause on the real Argon2. Non-trivial = at least one session issued and one "
-            "token-taking operation; distinct = distinct case line.",
+            "contract's pepper clause on the real Argon2. "
+            "SECRETS DIMENSION. Passwords are carried in the case line itself (x + hex of the bytes handed to the real "
+            "code; the model compares the fields). Class P (password pairs, through create_user / verify of the provider, "
+            "with and without pepper): for a base password x of every listed BYTE length -- quick: ASCII 0,1,8,16,32,55,"
+            "56,64,72,100,127,128,129,255,256,257,1000,4096,10000; multi-byte (1..4-byte characters, ending inside a "
+            "multi-byte character) 3,9,17,33,56,57,65,73,74,128..131,256..258,1000,4097; with embedded NUL bytes 1,4,8,16,"
+            "64,128,129,256,1000; thorough: every length 0..136 (0..140 multi-byte, 1..70 NUL) and the neighbourhoods of "
+            "192,256,384,512,768,1024,2048,4096,8192,16384,65536 plus 10000 and 32768, plus 400 random (family, "
+            "length, position) bases -- and every near-miss q of x (only the last / first / middle / one random "
+            "character changed [for a multi-byte character only the LAST byte of its encoding changes, so a byte cut "
+            "falls inside the character], proper prefix, proper suffix, first half, x+char, x+NUL, x+space, char+x, "
+            "case of one letter, cut at the first NUL, NUL->space, NULs removed, NFD spelling; thorough also x+x, "
+            "space+x, x+multi-byte char, all letters case-swapped): forward = create a user with x, verify(x) must "
+            "succeed, verify(q) must fail for every q (1 create, 1+|q| verifies); reverse = a user created with q "
+            "(quick: last-char / proper-prefix / x+char / cut-at-NUL; thorough: 8 variants) must verify q and refuse x. "
+            "Random sequences draw 1/4 of the created passwords from these families; 1/3 of their verifies on an existing "
+            "user try a near-miss of the right password. Class H (pepper as a secret, User::create / verify directly, "
+            "function hashc): pepper of 1,8,16,32,64,72,128,129,256,257,1000,4096 random bytes (thorough: 1..140 and "
+            "the neighbourhoods of 256,512,1024,4096, 10000) against last / first / middle byte changed, one byte "
+            "shorter at either end, +NUL, +byte, no pepper, and a wrong password under the right pepper. Classes T / U "
+            "(near-misses of REAL tokens / uids, index 10000+1000*b+c = derive_secret(real value b, code c); checked in "
+            "the harness to differ from every real value): every position's character replaced, every proper prefix "
+            "(incl. empty), every position upper-cased, value+0 / +NUL / +space / +LF / +TAB / space+value / doubled / "
+            "all upper-case / first character dropped / 0+value, on get_uid_by_token, the auth-route cookie (no "
+            "whitespace / control variants there: the cookie parser trims), refresh_session, invalidate_session "
+            "(tokens) and exists, verify with the owner's right password, remove_user, create_session(_with_lifetime), "
+            "invalidate_user_session (uids); the real token / user must be untouched afterwards (observed after every "
+            "step). The random sequences take half of their unknown tokens / uids from these near-misses. "
+            "Non-trivial = at least one session issued and one token-taking operation, or (class P) a user created and "
+            "a different password refused; distinct = distinct case line.",
     "exhaustive": False,
     "violation_text": "the outputs of the real AuthProvider / auth route over this operation sequence differ from the "
                       "abstract specification (token map + password map): see the first differing step",
@@ -22,7 +50,9 @@ CFG = {
                      "Argon2 satisfies HashScheme.Lawful (verify (hash p salt pep) p' pep' <-> p = p' and pep = pep'); "
                      "exercised, not proved",
                      "OsRng / Uuid::new_v4 never repeat a value (hypothesis Fresh); distinctness is checked per run",
-                     "the harness's renaming of random uids / tokens to indices"],
+                     "the harness's renaming of random uids / tokens to indices; derive_secret (near-misses of real uids / "
+                     "tokens differ from every real one: checked per step, reported in #fmt=)",
+                     "passwords / peppers in a case line are the bytes handed to the real code (hex is injective)"],
     "assumptions": ["Fresh: every drawn uid / token differs from all drawn before",
                     "now + lifetime does not overflow u64 in a build without overflow checks (the model panics there, "
                     "as the harness build does)",
